@@ -246,8 +246,10 @@ def shard(ctx):
             kind, text = 'grammar', src.text()
         elif x < 0.5:
             kind, text = 'nearvalid', near_valid(rng, gen)
-        elif x < 0.7:
+        elif x < 0.63:
             kind, text = 'tokensoup', hostile.token_soup(rng)
+        elif x < 0.7:
+            kind, text = 'danglingsoup', hostile.dangling_soup(rng)
         elif x < 0.82:
             kind, text = 'blocksoup', hostile.block_soup(rng)
         elif x < 0.93:
